@@ -390,3 +390,175 @@ impl Schedule {
         &&& forall|vt: VehicleTypeIdx| #[trigger] trs.contains_key(vt) && !self.type_touched(vehicles, rc, k, vt) ==> trs[vt] == trs0[vt]
     }
 }
+
+impl Schedule {
+    /// some real vehicle of the list of changed vehicles is of type vt
+    pub open spec fn touches_type(&self, vehicles: Map<VehicleIdx, Vehicle>, cv: Seq<VehicleIdx>, vt: VehicleTypeIdx) -> bool {
+        exists|i: int| 0 <= i < cv.len() && (#[trigger] cv[i]) is Vehicle && self.eff_type(vehicles, cv[i]) == vt
+    }
+}
+
+/// the old schedule's state is the state after 0 updates
+pub proof fn lemma_init(s: &Schedule, trs: Map<VehicleTypeIdx, Transition>, mv: int, cv: Seq<VehicleIdx>, vehicles: Map<VehicleIdx, Vehicle>, tours: Map<VehicleIdx, Tour>, rc: Seq<VehicleIdx>)
+    requires s.upd_pre(trs, mv, cv, vehicles, tours),
+    ensures s.inv_at(trs, trs, Map::<VehicleIdx, &Tour>::empty(), vehicles, tours, rc, 0),
+{
+    let upd = Map::<VehicleIdx, &Tour>::empty();
+    assert(eff_tours(upd, s.tours@) =~= s.tours@);
+    assert forall|vt: VehicleTypeIdx, v: VehicleIdx| #![trigger trs[vt].has_vehicle(v)] trs.contains_key(vt)
+        implies (trs[vt].has_vehicle(v) <==> s.member_at(vehicles, rc, 0, v, vt)) by {
+        assert(!done(rc, 0, v));
+    }
+}
+
+/// one update: the transition of the type of the k-th changed vehicle v is replaced by `nt`, which is
+/// consistent with the tours updated so far plus v's new tour and has gained / kept / lost v
+pub proof fn lemma_step(s: &Schedule, trs0: Map<VehicleTypeIdx, Transition>, trs: Map<VehicleTypeIdx, Transition>, upd: Map<VehicleIdx, &Tour>, upd2: Map<VehicleIdx, &Tour>,
+    vehicles: Map<VehicleIdx, Vehicle>, tours: Map<VehicleIdx, Tour>, rc: Seq<VehicleIdx>, k: int, nt: Transition)
+    requires
+        s.inv_at(trs0, trs, upd, vehicles, tours, rc, k),
+        0 <= k < rc.len(),
+        rc.no_duplicates(),
+        trs.contains_key(s.eff_type(vehicles, rc[k])),
+        ({
+            let v = rc[k];
+            let ot = trs[s.eff_type(vehicles, v)];
+            let e = eff_tours(upd, s.tours@);
+            if vehicles.contains_key(v) {
+                &&& upd2 == upd.insert(v, &tours[v])
+                &&& nt.wf(&s.network, e.insert(v, tours[v]))
+                &&& forall|x: VehicleIdx| #[trigger] nt.has_vehicle(x) <==> (ot.has_vehicle(x) || x == v)
+            } else {
+                &&& upd2 == upd
+                &&& nt.wf(&s.network, e)
+                &&& forall|x: VehicleIdx| #[trigger] nt.has_vehicle(x) <==> (ot.has_vehicle(x) && x != v)
+            }
+        }),
+    ensures
+        s.inv_at(trs0, trs.insert(s.eff_type(vehicles, rc[k]), nt), upd2, vehicles, tours, rc, k + 1),
+{
+    let v = rc[k];
+    let vt0 = s.eff_type(vehicles, v);
+    let ot = trs[vt0];
+    let e = eff_tours(upd, s.tours@);
+    let e2 = eff_tours(upd2, s.tours@);
+    let trs2 = trs.insert(vt0, nt);
+    assert(!done(rc, k, v)) by {
+        if done(rc, k, v) {
+            let j = choose|j: int| 0 <= j < k && #[trigger] rc[j] == v;
+            assert(rc[j] == rc[k]);
+        }
+    }
+    assert forall|x: VehicleIdx| done(rc, k + 1, x) <==> (done(rc, k, x) || x == v) by {
+        if done(rc, k + 1, x) {
+            let j = choose|j: int| 0 <= j < k + 1 && #[trigger] rc[j] == x;
+            if j < k { assert(done(rc, k, x)); }
+        }
+        if done(rc, k, x) {
+            let j = choose|j: int| 0 <= j < k && #[trigger] rc[j] == x;
+            assert(0 <= j < k + 1 && rc[j] == x);
+        }
+        if x == v { assert(rc[k] == x); }
+    }
+    if vehicles.contains_key(v) { assert(e2 =~= e.insert(v, tours[v])); }
+    // consistency with the tours
+    assert forall|vt: VehicleTypeIdx| #[trigger] trs2.contains_key(vt) implies trs2[vt].wf(&s.network, e2) by {
+        if vt != vt0 {
+            assert(trs.contains_key(vt));
+            assert forall|x: VehicleIdx| #[trigger] trs[vt]@.lookup.contains_key(x) implies (e.contains_key(x) ==> e2.contains_key(x)) && e2[x] == e[x] by {
+                assert(trs[vt].has_vehicle(x));
+                assert(s.member_at(vehicles, rc, k, x, vt));
+                assert(x != v);
+            }
+            lemma_wf_same_tours(trs[vt]@, &s.network, e, e2);
+        }
+    }
+    // membership
+    assert forall|vt: VehicleTypeIdx, x: VehicleIdx| #![trigger trs2[vt].has_vehicle(x)] trs2.contains_key(vt)
+        implies (trs2[vt].has_vehicle(x) <==> s.member_at(vehicles, rc, k + 1, x, vt)) by {
+        assert(trs.contains_key(vt));
+        assert(trs[vt].has_vehicle(x) <==> s.member_at(vehicles, rc, k, x, vt));
+        assert(done(rc, k + 1, x) <==> (done(rc, k, x) || x == v));
+        if vt == vt0 {
+            assert(nt.has_vehicle(x) <==> (ot.has_vehicle(x) || x == v) && (vehicles.contains_key(v) || x != v));
+        }
+    }
+    // the tours updated so far
+    assert forall|x: VehicleIdx| #[trigger] upd2.contains_key(x) <==> (done(rc, k + 1, x) && vehicles.contains_key(x)) by {
+        assert(done(rc, k + 1, x) <==> (done(rc, k, x) || x == v));
+        assert(upd.contains_key(x) <==> (done(rc, k, x) && vehicles.contains_key(x)));
+    }
+    assert forall|x: VehicleIdx| #[trigger] upd2.contains_key(x) implies *upd2[x] == tours[x] by {
+        if x != v { assert(upd.contains_key(x)); }
+    }
+    // untouched types
+    assert forall|vt: VehicleTypeIdx| #[trigger] trs2.contains_key(vt) && !s.type_touched(vehicles, rc, k + 1, vt) implies trs2[vt] == trs0[vt] by {
+        if vt == vt0 { assert(s.eff_type(vehicles, rc[k]) == vt); }
+        if s.type_touched(vehicles, rc, k, vt) {
+            let j = choose|j: int| 0 <= j < k && s.eff_type(vehicles, #[trigger] rc[j]) == vt;
+            assert(0 <= j < k + 1 && s.eff_type(vehicles, rc[j]) == vt);
+        }
+    }
+    assert forall|vt: VehicleTypeIdx| trs0.contains_key(vt) <==> #[trigger] trs2.contains_key(vt) by {
+        assert(trs0.contains_key(vt) <==> trs.contains_key(vt));
+    }
+}
+
+/// after all updates: every transition is consistent with the new tours and holds exactly the new
+/// vehicles of its type
+pub proof fn lemma_finish(s: &Schedule, trs0: Map<VehicleTypeIdx, Transition>, mv0: int, trs: Map<VehicleTypeIdx, Transition>, upd: Map<VehicleIdx, &Tour>,
+    cv: Seq<VehicleIdx>, vehicles: Map<VehicleIdx, Vehicle>, tours: Map<VehicleIdx, Tour>, rc: Seq<VehicleIdx>)
+    requires
+        s.upd_pre(trs0, mv0, cv, vehicles, tours),
+        s.inv_at(trs0, trs, upd, vehicles, tours, rc, rc.len() as int),
+        forall|j: int| 0 <= j < rc.len() ==> real_in(cv, #[trigger] rc[j]),
+        forall|x: VehicleIdx| real_in(cv, x) ==> #[trigger] rc.contains(x),
+    ensures
+        forall|vt: VehicleTypeIdx| #[trigger] trs.contains_key(vt) ==> trs[vt].wf(&s.network, tours),
+        forall|vt: VehicleTypeIdx, v: VehicleIdx| #![trigger trs[vt].has_vehicle(v)] trs.contains_key(vt)
+            ==> (trs[vt].has_vehicle(v) <==> (vehicles.contains_key(v) && vtype(vehicles[v]) == vt)),
+        forall|vt: VehicleTypeIdx| #[trigger] trs.contains_key(vt) && !s.touches_type(vehicles, cv, vt) ==> trs[vt] == trs0[vt],
+{
+    let n = rc.len() as int;
+    let e = eff_tours(upd, s.tours@);
+    assert forall|x: VehicleIdx| done(rc, n, x) <==> real_in(cv, x) by {
+        if done(rc, n, x) {
+            let j = choose|j: int| 0 <= j < n && #[trigger] rc[j] == x;
+            assert(real_in(cv, rc[j]));
+        }
+        if real_in(cv, x) {
+            assert(rc.contains(x));
+            let j = choose|j: int| 0 <= j < rc.len() && rc[j] == x;
+            assert(0 <= j < n && rc[j] == x);
+        }
+    }
+    assert forall|vt: VehicleTypeIdx, v: VehicleIdx| #![trigger trs[vt].has_vehicle(v)] trs.contains_key(vt)
+        implies (trs[vt].has_vehicle(v) <==> (vehicles.contains_key(v) && vtype(vehicles[v]) == vt)) by {
+        assert(trs[vt].has_vehicle(v) <==> s.member_at(vehicles, rc, n, v, vt));
+        assert(done(rc, n, v) <==> real_in(cv, v));
+    }
+    assert forall|vt: VehicleTypeIdx| #[trigger] trs.contains_key(vt) implies trs[vt].wf(&s.network, tours) by {
+        assert forall|x: VehicleIdx| #[trigger] trs[vt]@.lookup.contains_key(x) implies (e.contains_key(x) ==> tours.contains_key(x)) && tours[x] == e[x] by {
+            assert(trs[vt].has_vehicle(x));
+            assert(s.member_at(vehicles, rc, n, x, vt));
+            assert(done(rc, n, x) <==> real_in(cv, x));
+            if real_in(cv, x) {
+                let i = choose|i: int| 0 <= i < cv.len() && cv[i] == x;
+                assert(s.change_ok(trs0, vehicles, tours, cv[i]));
+                assert(upd.contains_key(x));
+            } else {
+                assert(vehicles.contains_key(x));
+                assert(!upd.contains_key(x));
+            }
+        }
+        lemma_wf_same_tours(trs[vt]@, &s.network, e, tours);
+    }
+    assert forall|vt: VehicleTypeIdx| #[trigger] trs.contains_key(vt) && !s.touches_type(vehicles, cv, vt) implies trs[vt] == trs0[vt] by {
+        if s.type_touched(vehicles, rc, n, vt) {
+            let j = choose|j: int| 0 <= j < n && s.eff_type(vehicles, #[trigger] rc[j]) == vt;
+            assert(real_in(cv, rc[j]));
+            let i = choose|i: int| 0 <= i < cv.len() && cv[i] == rc[j];
+            assert(cv[i] is Vehicle && s.eff_type(vehicles, cv[i]) == vt);
+        }
+    }
+}
